@@ -473,6 +473,24 @@ fn c11_glyf_contour_count_dispatch() {
     }
 }
 
+/// A transformed glyf table with zero glyphs: every stream is empty, and so is the bbox
+/// bitmap (4 * floor((0 + 31) / 32) = 0 bytes); the 36-byte header alone is a valid table.
+// @bound the 36-byte header with numGlyphs = 0 (version and indexFormat symbolic)
+#[kani::proof]
+#[kani::unwind(6)]
+fn c11_zero_glyphs() {
+    let mut buf = [0u8; 36];
+    let v: u32 = kani::any();
+    let f: u16 = kani::any();
+    put32(&mut buf, 0, v);
+    put16(&mut buf, 6, f);
+    let loca = LocaTable::empty();
+    let table = ReadScope::new(&buf).read_dep::<Woff2GlyfTable>((&ENTRY, &loca)).unwrap();
+    assert!(table.records().is_empty());
+    kani::cover!(true, "empty table accepted");
+    std::mem::forget(table);
+}
+
 // ---------------------------------------------------------------------------
 // transformed hmtx
 // ---------------------------------------------------------------------------
